@@ -47,9 +47,9 @@ def signature_rule(F, rep):
     b = F.const_body("io::peppi::FILE_SIGNATURE")
     sig = None
     if b and b.get("tir"):
-        v = strip(b["tir"]["value"])
-        if v.get("k") == "Array":
-            sig = bytes(tir.lit_int(e) for e in v["elems"])
+        bs = F.bytes_of(b["tir"]["value"])
+        if bs is not None:
+            sig = bytes(bs)
     rep.ob("signature", sig == b"peppi.json", "io::peppi::FILE_SIGNATURE", "bytes", "FILE_SIGNATURE is %r, the first entry name is peppi.json" % (sig,), sample={"signature": sig.decode() if sig else None})
 
 
